@@ -351,16 +351,20 @@ void cmb_dataset_fivenum_print(const struct cmb_dataset *dsp,
         const double max = dsc.max;
         const double med = data_array_median(dsc.count, dsc.xa);
 
+        /* A single sample has no lower or upper half, all quantiles coincide */
+        double q1 = med;
+        double q3 = med;
         const unsigned lhsz = dsc.count / 2;
-        const double q1 = data_array_median(lhsz, dsc.xa);
-        double q3;
         const unsigned uhsz = dsc.count - lhsz;
-        if ((dsc.count % 2) == 0) {
-            /* Even number of entries */
-            q3 = data_array_median(uhsz, &(dsc.xa[lhsz]));
-        } else {
-            /* Odd number of entries, exclude the median entry */
-            q3 = data_array_median(uhsz - 1, &(dsc.xa[lhsz + 1]));
+        if (lhsz > 0u) {
+            q1 = data_array_median(lhsz, dsc.xa);
+            if ((dsc.count % 2) == 0) {
+                /* Even number of entries */
+                q3 = data_array_median(uhsz, &(dsc.xa[lhsz]));
+            } else {
+                /* Odd number of entries, exclude the median entry */
+                q3 = data_array_median(uhsz - 1, &(dsc.xa[lhsz + 1]));
+            }
         }
 
         const int r = fprintf(fp, "%s%#8.4g%s%#8.4g%s%#8.4g%s%#8.4g%s%#8.4g\n",
